@@ -1,8 +1,13 @@
 /* C18/C17/C01: igzip/huff_codes.c -- harnesses over the real (static) functions */
 #define HUFF_WITH_CODES
 #include "igzip_huff.h"
-uint32_t g_lcode, g_llen, g_k, w_ret, g_lit, g_lsym, g_dsym, g_c, g_k0, g_r0, g_k1, g_r1, g_n;
+uint32_t g_lcode, g_llen, g_dcode, g_dlen, g_k, w_ret, g_lit, g_lsym, g_dsym, g_c, g_k0, g_r0, g_k1, g_r1, g_n;
 uint64_t g_osz;
+#ifdef RL_ENCODE_LOOP
+uint32_t g_p, g_q, w_cov, w_seg_s, w_seg_e, w_seg_v, w_seg_hit;
+struct rl_code *w_next, *w_seg_out;
+#endif
+uint32_t g_L, g_D, g_U, g_ocode, g_olen, g_pexp;
 /* flatten_ll (igzip/flatten_ll.c): ASSUMED frame -- rewrites the 513 lit/len counters it is handed */
 void
 flatten_ll(uint32_t *ll_hist)
@@ -205,3 +210,44 @@ h_rl_encode_small(void)
         __CPROVER_assert(dec[g_k] == codes[g_k], "expansion reproduces the input sequence");
         VCANARY();
 }
+
+void
+h_create_packed_len_table(void)
+{
+        uint32_t *packed_table;
+        struct huff_code *lit_len_hufftable;
+        create_packed_len_table(packed_table, lit_len_hufftable);
+        VCANARY();
+}
+
+void
+h_create_packed_dist_table(void)
+{
+        uint32_t *packed_table, length;
+        struct huff_code *dist_hufftable;
+        create_packed_dist_table(packed_table, length, dist_hufftable);
+        VCANARY();
+}
+
+void
+h_expand_hufftables_icf(void)
+{
+        struct hufftables_icf *hufftables = malloc(sizeof(*hufftables));
+        HARNESS_ASSUME(hufftables != NULL);
+        expand_hufftables_icf(hufftables);
+        VCANARY();
+}
+
+#ifdef RL_ENCODE_LOOP
+void
+h_rl_encode_loop(void)
+{
+        uint16_t *codes;
+        uint32_t num_codes;
+        uint64_t *counts;
+        struct rl_code *out;
+        uint32_t r = rl_encode(codes, num_codes, counts, out);
+        (void) r;
+        VCANARY();
+}
+#endif
